@@ -362,7 +362,7 @@ func comparePlain(got, want []plainCue, unit func(int64) int64, tolerance int64)
 }
 
 func suiteConvert(R *runner, r *rng) {
-	R.rule("conversion: all (source, destination) pairs in {srt,ssa,ass,stl,ttml,vtt,ts} x {srt,ssa,ass,stl,ttml,vtt}; sources rendered by the harness's own encoders from ground-truth cue lists (1..5 cues, 1..2 lines, Latin text incl. accented letters; times at the source's resolution) plus styled SRT documents and repository samples; extension in mixed case; 0..4 operations (sync, fragment, unfragment, merge, optimize, order, linear correction) with random parameters through the library, 0..1 operation through the built CLI; the destination file is re-read through the library; oracle: same cues in the same order, times truncated to the destination's unit, same text without white space; unsupported extension -> ErrInvalidExtension, empty list -> ErrNoSubtitlesToWrite; non-trivial = destination format differs from the source format or an operation is applied")
+	R.rule("conversion: all (source, destination) pairs in {srt,ssa,ass,stl,ttml,vtt,ts} x {srt,ssa,ass,stl,ttml,vtt}; sources rendered by the harness's own encoders from ground-truth cue lists (1..5 cues, 1..2 lines, Latin text incl. accented letters; times at the source's resolution) plus styled SRT documents and repository samples; extension in mixed case; every third repetition a crafted list in which a cue with another text starts on a fragment boundary of a longer cue listed after it (then fragment + unfragment), every third a list of 14..24 cues sharing few start instants in shuffled order (then order / fragment / unfragment); 0..4 operations (sync, fragment, unfragment, merge, optimize, order, linear correction) with random parameters through the library, 0..1 operation through the built CLI; the destination file is re-read through the library; oracle: same cues in the same order, times truncated to the destination's unit, same text without white space; unsupported extension -> ErrInvalidExtension, empty list -> ErrNoSubtitlesToWrite; non-trivial = destination format differs from the source format or an operation is applied")
 	dir, _ := os.MkdirTemp("", "verif-conv")
 	defer os.RemoveAll(dir)
 	cli := filepath.Join(buildDir, "astisub-cli")
@@ -438,6 +438,35 @@ func suiteConvert(R *runner, r *rng) {
 					cues[0].Start, cues[0].End = k*f, k*f+(1+r.i64n(3))*4e7
 					cues[1].Start, cues[1].End = 0, m*f
 					crafted = []convOp{{name: "fragment", f: f}, {name: "unfragment"}}
+				}
+				// every third repetition (other phase): 14..24 cues of which many share their start instant exactly, listed in
+				// shuffled order, then order / merge / fragment (stability of the ordering on lists longer than 12)
+				if rep%3 == 2 && sf != "ts" {
+					n := 14 + r.intn(11)
+					cues = plainCues(r, n)
+					for i := range cues {
+						slot := int64(r.intn(5))
+						cues[i].Start = (10 + slot*3) * 1e9
+						cues[i].End = cues[i].Start + (1+r.i64n(2))*1e9
+						cues[i].Lines = cues[i].Lines[:1]
+						cues[i].Lines[0][0].Text = fmt.Sprintf("c%d %s", i, cues[i].Lines[0][0].Text)
+						if sf == "ts" || df == "stl" || sf == "stl" {
+							cues[i].Lines[0][0].Text = strings.Map(func(ru rune) rune {
+								if ru > 0x7e {
+									return 'e'
+								}
+								return ru
+							}, cues[i].Lines[0][0].Text)
+						}
+					}
+					switch r.intn(3) {
+					case 0:
+						crafted = []convOp{{name: "order"}}
+					case 1:
+						crafted = []convOp{{name: "fragment", f: 2e9}}
+					default:
+						crafted = []convOp{{name: "order"}, {name: "unfragment"}}
+					}
 				}
 				var src []byte
 				var err error
